@@ -158,7 +158,7 @@ PIN_RECURSE = "self.run_tree_list(children, &full_path, ignore)"
 PIN_CLOSURE = ".and_then(|options| options.ignore)"
 
 
-def list_file(S: Sources):
+def list_file(S: Sources, prefix: str = "c14"):
     """Divan::run_tree_list, one level of the walk, for EVERY tree (unbounded): the events at this level (lines printed per
     case, recursive calls with the inherited `ignore`) are exactly those the statement prescribes. The recursive call is
     replaced by a recorder of its arguments (i.e. it is reasoned about through this same contract: modular treatment of
@@ -188,14 +188,16 @@ def list_file(S: Sources):
     # the walk either carries the inherited `ignore` down (current code) or has no such parameter (the code before
     # fix 9e0d033); in the latter case nothing is inherited: the spec is instantiated with parent_ignore = None
     has_parent = "parent_ignore" in f_list.header_text()
-    pin_recurse = PIN_RECURSE if has_parent else "self.run_tree_list(children, &full_path)"
-    rec_event = "Ev::Recurse(ci, ignore)" if has_parent else "Ev::Recurse(ci, None)"
+    # the recursive call, whatever expression is passed as the inherited setting (it is what gets recorded)
+    pin_recurse = (r"self\s*\.\s*run_tree_list\s*\(\s*children\s*,\s*&\s*full_path\s*,\s*([^,;()]+?)\s*,?\s*\)" if has_parent
+                   else pin("self.run_tree_list(children, &full_path)"))
+    rec_event = r"Ev::Recurse(ci, \1)" if has_parent else "Ev::Recurse(ci, None)"
     subst = [
         (pin(PIN_PATH_DECL), "", 1),
         (pin(PIN_PATH_BUILD), "", 1),
         (pin(PIN_LINE1), "{ proof { log = log.push(Ev::Line(ci)); } }", 1),
         (pin(PIN_LINE2), "{ proof { log = log.push(Ev::Line(ci)); } }", 1),
-        (pin(pin_recurse), "{ proof { log = log.push(" + rec_event + "); } }", 1),
+        (pin_recurse, "{ proof { log = log.push(" + rec_event + "); } }", 1),
         # Verus has no `continue` in for-loops: the loop over the slice is rewritten as an index loop (header only)
         (r"for\s+child\s+in\s+tree\s*\{", "let mut idx: usize = 0;\n        while idx < tree.len() /*LOOPINV*/ {\n            let child = &tree[idx]; let ghost ci: int = idx as int; idx = idx + 1;", 1),
         (pin("for arg in args"), "for arg in it2: args", 1),
@@ -219,13 +221,13 @@ def list_file(S: Sources):
         code_fn(dv, f_si, "Divan::should_ignore", ret="r", clauses="ensures r == !should_run_spec(self.run_ignored, ignored),"),
         sec,
     ])
-    main = VerusFile("c14_list", secs, rlimit=60)
+    main = VerusFile(f"{prefix}_list", secs, rlimit=60)
     import copy
     csecs = copy.deepcopy(secs)
     for c in csecs:
         if c.name == "Divan::run_tree_list":
             c.text = c.text.replace("tree@.len() as int)); }", "tree@.len() as int)); assert(false); // CANARY list_end\n }")
-    return [main, VerusFile("c14_list_canary", csecs, expect_fail=True, rlimit=60)]
+    return [main, VerusFile(f"{prefix}_list_canary", csecs, expect_fail=True, rlimit=60)]
 
 
 def build(S: Sources) -> Unit:
@@ -234,6 +236,8 @@ def build(S: Sources) -> Unit:
     vfiles = guarded(lambda: list_file(S), errs, [])
     from units import cli_common
     vfiles = vfiles + guarded(lambda: cli_common.cfg_files(S, {"C14"}, "c14"), errs, [])
+    from units import pipeline_common
+    vfiles = vfiles + guarded(lambda: pipeline_common.pipeline_files(S, {"C14"}, "c14"), errs, [])
     hs = [
         KaniHarness("verif_c14::list_benches_lists", "complete", covers="Divan::list_benches -> run_action(list action)"),
         KaniHarness("verif_c14::terse_list_matches_run", "bounded", bound="one tree: group g { a, b[x, y] }; all 27 x 3 ignore / flag combinations",
